@@ -9,6 +9,7 @@ namespace Driver
 def step (line : String) : String :=
   match line.trimAscii.toString.splitOn " " with
   | "diff" :: args => opDiff args
+  | "split" :: args => opSplit args
   | "validate" :: args => opValidate args
   | "exec" :: args => opExec args
   | "rundocs" :: args => opRunDocs args
